@@ -2,6 +2,7 @@ package main
 
 import (
 	"strings"
+	"sync"
 )
 
 // canon gives a finding its canonical root-cause key. Shapes that have been analysed and reproduced
@@ -12,7 +13,6 @@ func (in *inst) canon(f *finding) {
 	be := in.c.be
 	emptyK := len(f.s) == 0
 	endsFF := func(b []byte) bool { return len(b) > 0 && b[len(b)-1] == 0xff }
-	lookup := f.obs == "Get" || f.obs == "Has" || f.obs == "Load" || f.obs == "Exist"
 
 	switch {
 	// U1. cpIncr(prefix) keeps the length of a 0xFF-terminated prefix ("a\xff" -> "b\x00"), which lies
@@ -27,7 +27,7 @@ func (in *inst) canon(f *finding) {
 		return
 	// U3. badger rejects the empty key: Set/Put swallow ErrEmptyKey (handled in step), Get and Has panic.
 	case be.base == "badger" && be.view == nil && emptyK && (f.obs == "Get" || f.obs == "Has") && f.class == "panic":
-		f.key, f.soft = "badger:empty-key:Get-and-Has-panic", true
+		f.key, f.soft = "badger:empty-key:Get-Has-Delete-panic", true
 		return
 	// U6. badger's Iterator.Seek treats an empty key as "rewind": ReverseIterator([]byte{}, end) starts at
 	// the LAST key instead of yielding nothing (no key is <= "").
@@ -47,14 +47,42 @@ func (in *inst) canon(f *finding) {
 	}
 
 	shape := ""
-	if lookup && emptyK {
-		shape = ":empty-key"
-	}
 	if (f.obs == "NewIteratorWithPrefix" || f.obs == "IteratePrefix") && endsFF(f.s) {
 		shape = ":prefix-ends-in-0xff"
 	}
-	f.key = strings.Join([]string{be.name, f.obs, f.class}, ":") + shape
+	tail := f.obs + ":" + f.class + shape
+	if f.obs == "IteratePrefix" {
+		// a helper on top of DB.Iterator, the same for every store (Iterator itself is compared first)
+		f.key = tail
+		return
+	}
+	if be.view == nil {
+		f.key = be.base + ":" + tail
+		plainKeys.Store(f.key, true)
+		return
+	}
+	// a view inherits the defects of the store below it: if the plain store (searched earlier) showed the
+	// same observation/class, this is the same root cause; otherwise it is the view's own. Views with a
+	// 0xFF-terminated prefix are searched after the plain-prefix views and only get a key of their own for
+	// what those did not show.
+	if _, ok := plainKeys.Load(be.base + ":" + tail); ok {
+		f.key = be.base + ":" + tail
+		return
+	}
+	if !endsFF(be.view) {
+		f.key = "prefixdb:" + tail
+		plainKeys.Store(f.key, true)
+		return
+	}
+	if _, ok := plainKeys.Load("prefixdb:" + tail); ok {
+		f.key = "prefixdb:" + tail
+		return
+	}
+	f.key = "prefixdb:view-prefix-ends-in-0xff:" + tail
 }
+
+// keys produced by earlier searches (plain stores run before views of them, plain prefixes before 0xFF ones)
+var plainKeys sync.Map
 
 // every differing entry is the wanted value followed by leftover bytes
 func staleTail(got, want []kv) bool {
